@@ -70,6 +70,11 @@ def oracle(ctx, deep):
     for c, a, b in getattr(ctx, "wl_results", []):
         if a is None:
             continue
+        if "GENERATED-ATOM-IS-NOT-THE-TITLE-FORM" in a:
+            pair = a.split("GENERATED-ATOM-IS-NOT-THE-TITLE-FORM:")[1].split(" ")[0]
+            ctx.violations.append({"finding_key": "C10-atom", "list": c["list"], "line": "wordlist " + wlgen.words_tokens(c["list"]), "observed": a[:300],
+                                   "what": "a generated atom is neither a kept word nor its title-cased form (word:atom, hex) %s" % pair})
+            continue
         l = c["list"]
         line = "wordlist " + wlgen.words_tokens(l)
         base = {"list": l, "line": line, "observed": a}
